@@ -353,6 +353,19 @@ def run_check(prop_id, tier="quick", seed=0, replay=None):
                 broken.append({"what": f"axiom audit of {t}", "errors": [str(ax)]})
     if meta.get("drift"):
         notes.append("translator drift: " + ", ".join(meta["drift"]))
+    leanchecker = None
+    if tier == "thorough" and ok_thm:
+        lock = _lake_lock()
+        try:
+            p = subprocess.run(["lake", "env", "leanchecker"] + list(prop.THEOREM_MODULES), cwd=LEAN_DIR,
+                               stdout=subprocess.PIPE, stderr=subprocess.STDOUT, text=True, timeout=3000)
+            leanchecker = {"rc": p.returncode, "tail": p.stdout[-300:]}
+            if p.returncode != 0:
+                broken.append({"what": "leanchecker " + " ".join(prop.THEOREM_MODULES), "errors": [p.stdout[-500:]]})
+        except Exception as e:  # the independent re-check is best effort
+            leanchecker = {"rc": None, "tail": repr(e)}
+        finally:
+            lock.close()
 
     # 3. cases -------------------------------------------------------------------------
     rng = random.Random(seed * 1000003 + int(hashlib.sha1(prop_id.encode()).hexdigest()[:6], 16))
@@ -382,14 +395,20 @@ def run_check(prop_id, tier="quick", seed=0, replay=None):
     violations = []
     known_hits = {}
     seen_sigs = set()
+    shrink_deadline = time.time() + float(os.environ.get("VERIF_SHRINK_S", "90"))
     for j in spec_fail[:50]:
+        if time.time() > shrink_deadline and (violations or known_hits):
+            break
         sig0 = prop.signature(j.case, j)
         if any(finding_matches(sig0, f) for f in findings):
             small = j.case
         else:
             clause = j.failed_clause
+            sig_pre = json.dumps(sig0, sort_keys=True)
+            if sig_pre in seen_sigs:
+                continue
             small = shrink(prop, j.case, lambda x: (not x.spec_ok) and (clause is None or x.failed_clause == clause),
-                           deadline=min(hard_deadline, time.time() + 60))
+                           deadline=min(hard_deadline, shrink_deadline, time.time() + 45))
         js = evaluate(prop, [small])[0]
         sig = prop.signature(small, js)
         skey = json.dumps(sig, sort_keys=True)
@@ -400,6 +419,7 @@ def run_check(prop_id, tier="quick", seed=0, replay=None):
         if skey in seen_sigs:
             continue
         seen_sigs.add(skey)
+        seen_sigs.add(json.dumps(sig0, sort_keys=True))
         path = write_replay(prop_id, {
             "property": prop_id, "kind": "spec-violated-by-implementation", "case": small,
             "failed_clause": js.failed_clause, "detail": js.detail, "signature": sig,
@@ -476,6 +496,7 @@ def run_check(prop_id, tier="quick", seed=0, replay=None):
                            f" && lake env lean audit/{prop_id}.lean   # #print axioms of every property theorem",
             "trusted_base": prop.TRUSTED_BASE,
             "theorems": axiom_report,
+            "leanchecker": leanchecker,
             "evaluations": n_eval,
             "distinct_nontrivial": len(distinct),
             "rule": prop.RULE,
